@@ -674,6 +674,17 @@ def run(ctx):
     c08_r2(ctx, r3b)
     r3c = ctx.rule("C05-R3c", "column computation: errors only at the cursor or the mark (shared with C08-R4)", floor=10)
     c08_r4(ctx, r3c)
+    # .. and the line state those columns are computed from (C08-R9: new / line_at_offset / give_up_at; C08-R8: the one
+    # token that keeps the books itself): `position - line_start` underflows when a line start lies ahead of the error
+    from .c08 import run_r9 as c08_r9, run_r8 as c08_r8
+    r3d = ctx.rule("C05-R3d", "column computation: the line state itself - line_at_offset(k) puts the line start at position + k, the comment section token moves behind the last line feed it counted (shared with C08-R8/R9)", floor=9)
+    c08_r9(ctx, r3d)
+    c08_r8(ctx, r3d)
+    # R9: `2 * M + 1` and `I + 1` in the AIGER parsers' constructors cannot overflow because Header::parse bounds M by
+    # (MAX_CODE - 1) / 2 and I, L, A by what is left of M: the premise of four table entries of R2, decided by C06-R4
+    from .c06 import run_r4 as c06_r4
+    r9 = ctx.rule("C05-R9", "AIGER header bounds: M <= (MAX_CODE - 1) / 2 and the remainder chain I <= M, L <= M - I, A <= M - I - L, so that max_lit = 2M + 1 and the running code cannot overflow (shared with C06-R4)", floor=20)
+    c06_r4(ctx, r9)
     # R8: an `as` cast that can change the value (usize -> isize, wider -> narrower) turns a checked number into one that
     # later arithmetic was not guarded for (`-limit` with limit = isize::MIN): the cast inventory of C06-R1, run here too
     from .c06 import run_r1 as c06_r1
